@@ -6,7 +6,6 @@ use crate::model::{self, CodecId};
 use crate::obs::*;
 use bio_seq::prelude::*;
 use bio_seq::translation::{TranslationTable, STANDARD};
-use proptest::prelude::*;
 use serde::{Deserialize, Serialize};
 
 #[derive(Clone, Debug, Serialize, Deserialize)]
